@@ -1,3 +1,4 @@
+import re
 """Pool discipline rules P8..P16 and the E-WAKER lint (DESIGN.md 4.2, 4.4)."""
 from core import (norm, L_call, L_variant, arms, assigns_to_return, const_of, CallSite, AbsPaths, sig,
                   closure_arg_of, is_transparent, L_opt, L_poll, carriers)
@@ -289,142 +290,65 @@ def P9_aspects(*aspects):
 
 
 def P9(ctx, facts, aspects=("marker", "waiters-first", "delivered-or-drained", "payload", "queue-kept")):
-    """aspects: marker (every push clears the in-flight marker), waiters-first (idle only after the queue is empty),
-    delivered-or-drained (the waiter walk ends only after delivery / draining), payload (what waiters receive),
-    queue-kept (queued senders leave the queue only when served, closed or cancelled).
-
-    The rules follow the *waiter walk* (the PoolInner method that pops queued senders) and the *idle entrances*
-    (PoolInner methods calling IdleConnections::push) wherever they live, so extracting a helper keeps them decided."""
-    import pool
-    A = set(aspects)
-    inner = pool.pool_units(facts)
-    walks = [g for g in inner if any((c.t.get("argtys") or [""])[0].startswith("&mut std::collections::" + SENDER_Q) for c in g.calls(VDQ + "::pop_front"))]
-    if len(walks) != 1:
-        return ctx.missing("PoolInner|waiter-walk", "expected exactly one PoolInner method popping queued senders, found %s" % [g.nkey for g in walks])
-    f = walks[0]
-    ctx.touched(f)
-    W = f.nkey.replace("client::pool::", "")
-    entrances = pool.entrance_fns(facts)
-    ctx.floor("PoolInner|idle-entrances", len(entrances), 1, "PoolInner methods with an idle-list entrance")
-    if "marker" in A:
-        rem_w = calls_on_field(f, "connecting", HSET + "::remove")
-        w_clears = bool(rem_w) and f.must_pass(0, f.returns, {c.bb for c in rem_w})[0]
-        for e in entrances:
-            rem = calls_on_field(e, "connecting", HSET + "::remove")
-            through = {c.bb for c in rem}
-            if w_clears and e.key != f.key:
-                through |= {c.bb for c in e.calls(f.nkey)}
-            ok, w = e.must_pass(0, e.returns, through) if through else (False, e.path(0, e.returns))
-            ctx.check(ok, "%s|marker-cleared" % e.nkey.replace("client::pool::", ""), "every hand-back clears the in-flight marker of its token on every path",
-                      "a connection can be handed back without clearing the in-flight marker", e.where(), e.path_desc(w))
-            for c in rem:
-                tr = sig(e.roots(c.args[1]))
-                ctx.check(tr and all(r.kind == "arg" and r.desc == "token" for r in tr), "%s|marker-own-token" % e.nkey.replace("client::pool::", ""),
-                          "the marker cleared is the pushed token's", "marker removed for %s" % sorted(map(repr, tr)), c.where())
-    if "queue-kept" in A:
+    """What a hand-back does - the marker is cleared, closed waiters are skipped, a shareable connection is cloned to every
+    live waiter and parked, an exclusive one goes to the first live waiter (the others keep their place) or is parked within
+    the bound - is the decision table of `PoolInner::push` (pooltable.py), evaluated on abstract pool states; helper
+    functions, container types and loop forms do not matter.  The aspect `queue-kept` adds the who-may-touch rule for the
+    waiter queues elsewhere in the crate."""
+    import pooltable
+    pooltable.push_table(ctx, facts)
+    if "queue-kept" in set(aspects):
         queue_kept(ctx, facts)
-    gm = calls_on_field(f, "waiting", HMAP + "::get_mut", HMAP + "::get", HMAP + "::remove", HMAP + "::entry")
-    pf = [c for c in f.calls(VDQ + "::pop_front") if (c.t.get("argtys") or [""])[0].startswith("&mut std::collections::" + SENDER_Q)]
-    ctx.floor("%s|waiter-queue" % W, len(gm), 1, "lookup of the token's waiter queue")
-    ctx.floor("%s|pop_front" % W, len(pf), 1, "VecDeque::pop_front on the waiter queue")
-
-    def queue_empty(lab):
-        if lab.kind != "variant" or lab.variants != {"None"}:
-            return False
-        site = f.call_defining(lab.place["l"])
-        return site is not None and (site.bb in {c.bb for c in gm} or site.bb in {c.bb for c in pf})
-
-    if "waiters-first" in A:
-        for e in entrances:
-            for c in e.calls("client::pool::idle::IdleConnections::push"):
-                if e.key == f.key:
-                    ok, w = f.guarded(c.bb, queue_empty)
-                    ctx.check(ok, "%s|waiters-before-idle" % W, "a connection goes to the idle list only once the token's waiter queue is empty or absent",
-                              "a connection can go idle while waiters are still queued", c.where(), f.path_desc(w))
-                else:
-                    wc = e.calls(f.nkey)
-                    ok, w = e.must_pass(0, [c.bb], {x.bb for x in wc}) if wc else (False, None)
-                    rr = e.roots(c.args[1], through_calls=False)
-                    own = any(r.kind == "call" and r.site.bb in {x.bb for x in wc} for r in rr)
-                    ctx.check(ok and own, "%s|waiters-before-idle" % e.nkey.replace("client::pool::", ""),
-                              "the idle entrance is reached only after the waiter walk, with the connection the walk gave back (ownership: it was not delivered)",
-                              "a connection can go idle without having been offered to the queued waiters", c.where(), e.path_desc(w))
-    sends = f.calls("tokio::sync::oneshot::Sender::send")
-    ctx.floor("%s|send" % W, len(sends), 2, "oneshot sends to waiters")
-
-    def exclusive_send(site):
-        # the payload carries the pushed connection itself (not its reuse() clone)
-        if site is None or not site.is_("tokio::sync::oneshot::Sender::send"):
-            return False
-        rr = f.roots(site.args[1], through_calls=False)
-        return any(r.kind == "arg" and r.desc == "connection" for r in rr) and \
-            not any(r.kind == "call" and r.site.is_("client::pool::PoolableConnection::reuse") for r in rr)
-
-    def delivered(lab):
-        # `let Err(p) = send(..) else { return }`: the non-Err edge of the send of the exclusive connection
-        if lab.kind == "variant" and "Ok" in lab.variants and "Err" not in lab.variants:
-            return exclusive_send(f.call_defining(lab.place["l"]))
-        if lab.kind == "bool" and lab.cond.kind == "call" and lab.cond.site.matches(r"Result.*::is_(ok|err)$"):
-            innerc = f.call_defining(op_place(lab.cond.site.args[0])["l"]) if op_place(lab.cond.site.args[0]) else None
-            if exclusive_send(innerc):
-                is_ok = norm(lab.cond.site.name).endswith("is_ok")
-                return lab.value is True if is_ok else lab.value is False
-        return False
-
-    if "delivered-or-drained" in A:
-        good = set(f.edges_where(queue_empty)) | set(f.edges_where(delivered))
-        p = f.path(0, f.returns, avoid_edges=good)
-        ctx.check(p is None, "%s|returns-only-delivered-or-drained" % W,
-                  "the waiter walk ends only after delivering the connection to a waiter or draining the waiter queue",
-                  "the waiter walk can end with waiters queued and the connection undelivered", f.where(), f.path_desc(p))
-    # what is sent: the pushed connection (exclusive) or its reuse() clone (shared)
-    for c in sends if "payload" in A else []:
-        rr = f.roots(c.args[1], through_calls=False)
-        pooled = [r for r in rr if r.kind == "arg" and r.desc == "connection"] or \
-                 [r for r in rr if r.kind == "call" and r.site.is_("client::pool::PoolableConnection::reuse")]
-        ctx.check(bool(pooled), "%s|send-payload" % W, "waiters receive the pushed connection or its reuse() clone",
-                  "send payload roots: %s" % sorted(map(repr, rr)), c.where())
 
 
-SENDER_Q = "VecDeque<(tokio::sync::oneshot::Sender<client::pool::Pooled<"
+WAITER_MAP = r"^&(mut )?std::collections::HashMap<client::pool::key::Token, std::collections::(VecDeque|vec_deque::VecDeque)<.*oneshot::Sender<|^&(mut )?std::collections::HashMap<client::pool::key::Token, (std|alloc)::vec::Vec<.*oneshot::Sender<"
+WAITER_QUEUE = r"^&mut (std::collections::(VecDeque|vec_deque::VecDeque)|(std|alloc)::vec::Vec)<.*oneshot::Sender<client::pool::Pooled<"
+READ_ONLY = {"get", "contains_key", "len", "is_empty", "iter", "keys", "values", "front", "back", "first", "last", "capacity"}
 
 
 def queue_kept(ctx, facts):
-    """Queued senders leave `waiting[token]` only by being served (pop_front in push) or released with their
-    attempt (retain in cancel_connection); a whole queue leaves the map only when it is empty."""
+    """Queued senders leave `waiting[token]` only by being served (the hand-back, decided by the push table) or released with
+    their attempt (cancel_connection, decided by its table); `Pool::checkout` only appends its own sender (and creates the
+    queue when the token has none); nothing else in the crate touches the waiter map or a queue except to read it."""
+    import panics
     n = 0
+    tabled = ("client::pool::PoolInner::push", "client::pool::PoolInner::cancel_connection")
     for g in facts.fns.values():
         if not g.nkey.startswith(("client::pool", "<client::pool")):
             continue
+        chain = panics.owner_chain(g)   # a private single-caller helper is judged as the function it was extracted from
+        in_tabled = any(nm in tabled for nm in chain)
+        in_checkout = any(nm == "client::pool::Pool::checkout" for nm in chain)
         for c in g.calls():
             tys = c.t.get("argtys") or [""]
             t0 = tys[0]
             m = norm(c.name).split("::")[-1]
-            if t0.startswith("&mut std::collections::HashMap<client::pool::key::Token, std::collections::" + SENDER_Q[:8]) and SENDER_Q[8:] in t0:
+            if re.search(WAITER_MAP, t0):
                 n += 1
-                if m in ("get_mut", "get", "entry", "contains_key", "len", "is_empty"):
-                    ctx.ok("waiting|%s|%s" % (g.nkey, m), "waiter map accessed by reference (%s): queued senders stay registered" % m, c.where())
+                if in_tabled or m in READ_ONLY or m in ("get_mut", "entry"):
+                    ctx.ok("waiting|%s|%s" % (g.nkey, m), "waiter map accessed by reference (%s) / inside a hand-back decided by its table" % m, c.where())
+                elif m == "insert" and in_checkout:
+                    absent = lambda lab: (lab.kind == "bool" and lab.cond.kind == "call" and lab.cond.site.matches(r"HashMap.*::contains_key$") and lab.value is False) or \
+                        (lab.kind == "variant" and lab.variants == {"None"} and g.call_defining(lab.place["l"]) is not None and g.call_defining(lab.place["l"]).matches(r"HashMap.*::(get|get_mut)$"))
+                    okg, w = g.guarded(c.bb, absent)
+                    ctx.check(okg, "waiting|%s|insert" % g.nkey, "a queue is inserted only for a token that has none yet",
+                              "a waiter queue can be inserted over an existing one: the senders queued there are dropped", c.where(), g.path_desc(w))
                 elif m == "remove":
-                    # removing a whole queue is only harmless when it is known to be empty
-                    okg, w = g.guarded(c.bb, lambda lab: lab.kind == "bool" and lab.value is True and lab.cond.kind == "call" and lab.cond.site.matches(r"VecDeque.*::is_empty$"))
+                    okg, w = g.guarded(c.bb, lambda lab: lab.kind == "bool" and lab.value is True and lab.cond.kind == "call" and lab.cond.site.matches(r"(VecDeque|Vec).*::is_empty$"))
                     ctx.check(okg, "waiting|%s|remove" % g.nkey, "a waiter queue is removed from the map only when empty",
                               "a waiter queue is taken out of the map while it may still hold senders: an early return drops other requests' registrations (they lose pre-emption and dial again)",
                               c.where(), g.path_desc(w))
                 else:
                     ctx.bad("waiting|%s|%s" % (g.nkey, m), "waiter map mutated through %s" % norm(c.name), c.where())
-            elif t0.startswith("&mut std::collections::" + SENDER_Q):
+            elif re.search(WAITER_QUEUE, t0):
                 n += 1
-                allowed = {"client::pool::Pool::checkout": {"push_back"}, "client::pool::PoolInner::cancel_connection": {"retain", "retain_mut"}}
-                in_inner = g.nkey.startswith("client::pool::PoolInner::") and "{closure" not in g.nkey
-                import panics
-                chain = panics.owner_chain(g)   # a private single-caller helper is judged as the function it was extracted from
-                ok = any(m in allowed.get(nm, set()) for nm in chain) or m in ("len", "is_empty", "iter") or (in_inner and m == "pop_front")
+                ok = in_tabled or m in READ_ONLY or (in_checkout and m in ("push_back", "push"))
                 ctx.check(ok, "waiter-queue|%s|%s" % (g.nkey, m), "queue of senders: %s in %s" % (m, g.nkey.split("::")[-1]),
                           "queued senders are removed / reordered through %s in %s" % (m, g.nkey), c.where())
         # an owned queue that goes out of scope drops every sender in it
         for b in g.live:
             t = g.term(b)
-            if t["k"] == "drop" and t["pty"].startswith("std::collections::" + SENDER_Q):
+            if t["k"] == "drop" and re.search(r"^(std::collections::(VecDeque|vec_deque::VecDeque)|(std|alloc)::vec::Vec)<.*oneshot::Sender<client::pool::Pooled<", t.get("pty") or "") and not in_checkout:
                 ctx.bad("waiter-queue|%s|dropped" % g.nkey, "a queue of waiting senders is owned and dropped here", g.where(b))
     ctx.floor("waiter-queue|accesses", n, 4, "accesses to the waiter map / queues")
 
@@ -648,64 +572,10 @@ def P10(ctx, facts, aspects=("sites", "released", "pure-waiter", "spawn", "keeps
 
 
 def P11(ctx, facts):
-    f = facts.unit(facts.fn("client::pool::PoolInner::cancel_connection"))
-    ctx.touched(f)
-    rem = calls_on_field(f, "connecting", HSET + "::remove")
-    ctx.floor("cancel_connection|marker-remove", len(rem), 1, "connecting.remove in cancel_connection")
-    existed = L_call(f, HSET + "::remove", True)
-    edges = f.edges_where(existed)
-    if not edges:
-        return ctx.bad("cancel_connection|dependants-released", "the result of connecting.remove() is not inspected: dependants of a cancelled attempt are never released", f.where())
-    q = calls_on_field(f, "waiting", HMAP + "::get_mut", HMAP + "::remove", HMAP + "::entry", HMAP + "::get")
-    removers = [c for c in f.calls(VDQ + "::retain", VDQ + "::retain_mut", VDQ + "::clear", VDQ + "::drain", VDQ + "::pop_front", VDQ + "::pop_back", VDQ + "::truncate")]
-    removers += [c for c in q if norm(c.name).endswith("::remove")]
-    through = {c.bb for c in removers}
+    """cancel_connection releases exactly the dependants of the cancelled attempt: decision table (pooltable.py)."""
+    import pooltable
+    pooltable.cancel_table(ctx, facts)
 
-    def no_queue(lab):
-        if lab.kind != "variant" or lab.variants != {"None"}:
-            return False
-        site = f.call_defining(lab.place["l"])
-        return site is not None and site.bb in {c.bb for c in q}
-
-    nq = set(f.edges_where(no_queue))
-    for (a, b) in edges:
-        p = f.path(b, f.returns, avoid_blocks=through, avoid_edges=nq)
-        ctx.check(p is None, "cancel_connection|dependants-released",
-                  "when the marker existed, every path removes queued senders of the token (or the token has no queue) before returning",
-                  "the marker can be cleared without releasing the checkouts that were waiting on the attempt (they stay Pending forever)",
-                  f.where(a), f.path_desc(p))
-    for c in q:
-        tr = sig(f.roots(c.args[1]))
-        ctx.check(tr and all(r.kind == "arg" and r.desc == "token" for r in tr), "cancel_connection|own-queue", "the queue released is the cancelled token's",
-                  "queue looked up with %s" % sorted(map(repr, tr)), c.where())
-    # which senders: exactly the dependants (keeps dialing waiters queued for pre-emption)
-    for c in removers:
-        if not norm(c.name).endswith("retain") and not norm(c.name).endswith("retain_mut"):
-            continue
-        ck = closure_arg_of(f, c, 1)
-        body = facts.fns.get(ck) if ck else None
-        if body is None:
-            ctx.undecided("cancel_connection|retain-predicate", "retain closure not found", c.where())
-            continue
-        rets = assigns_to_return(body, body.live)
-        ok = False
-        neg = None
-        if len(rets) == 1 and rets[0][0] == "stmt":
-            r = rets[0][2]["r"]
-            if r["k"] == "unop" and r["op"] == "Not":
-                neg = r["o"]
-        elif len(rets) == 1 and rets[0][0] == "call":
-            site = CallSite(body, rets[0][1], rets[0][2])
-            if site.matches(r"ops::(bit::)?Not>::not$|ops::Not::not$"):
-                neg = site.args[0]
-        if neg is not None:
-            rr = body.roots(neg, through_calls=False)
-            ok = any(x.kind == "arg" and getattr(x, "index", None) == 2 and (x.desc.endswith(".1") or x.desc.endswith("dependent")) for x in rr)
-        ctx.check(ok, "cancel_connection|retain-predicate", "retain keeps exactly the waiters that are not dependent on the cancelled attempt",
-                  "retain predicate is not `!dependent`", c.where())
-
-
-# ------------------------------------------------------------------ P14
 
 def P14(ctx, facts):
     new = facts.unit(facts.fn("client::pool::checkout::Checkout::new"))
@@ -801,6 +671,7 @@ KNOWN_HOLDERS = {
     "client::pool::PoolRef": "weak handle",
     "client::pool::Pool": "the pool handle",
 }
+
 
 
 def P15(ctx, facts):
